@@ -154,6 +154,10 @@ func main() {
 		fmt.Fprintf(prog, "START %d\n", c.ID)
 		t0 := time.Now()
 		res := runCase(c)
+		if len(res) > 4000 {
+			// an error text can quote a whole (multi-megabyte) response body; the parent reads this file line by line
+			res = res[:4000] + fmt.Sprintf("... (%d bytes in all)", len(res))
+		}
 		fmt.Fprintf(prog, "END %d %d %s\n", c.ID, time.Since(t0).Milliseconds(), strings.ReplaceAll(res, "\n", " "))
 	}
 	fmt.Fprintf(prog, "DONE\n")
